@@ -284,7 +284,17 @@ class NodeExpandedDiGraph(nx.DiGraph):
         
         if len(subpath_constraints) == 0:
             return []
-        
+
+        # Every constraint is a non-empty list, and all the elements of all constraints are nodes, or all are edges
+        if any(len(constraint) == 0 for constraint in subpath_constraints):
+            utils.logger.error(f"{__name__}: Subpath constraints must be non-empty lists.")
+            raise ValueError("Subpath constraints must be non-empty lists.")
+        all_nodes = all(isinstance(element, str) for constraint in subpath_constraints for element in constraint)
+        all_edges = all(isinstance(element, tuple) and len(element) == 2 for constraint in subpath_constraints for element in constraint)
+        if not (all_nodes or all_edges):
+            utils.logger.error(f"{__name__}: Subpath constraints must be a list of lists of nodes or edges.")
+            raise ValueError("Subpath constraints must be a list of lists of nodes or edges.")
+
         if isinstance(subpath_constraints[0][0], str):
             return self._get_expanded_subpath_constraints_nodes(subpath_constraints)
         elif isinstance(subpath_constraints[0][0], tuple):
